@@ -17,7 +17,7 @@ import (
 
 const (
 	c26N       = 4 // packets
-	c26Scratch = 2 // mmsghdr entries per chunk
+	c26Scratch = 3 // mmsghdr entries (and iovecs) per chunk
 	c26Script  = 4 // kernel answers
 )
 
@@ -43,13 +43,12 @@ func VerifC26WriteBatch() {
 	var addrs []netip.AddrPort
 	var lens [c26N]int
 	var toB [c26N]bool
-	backing := make([]byte, 70000)
+	var first [c26N]*byte // identity of each (non-empty) packet: the address of its first byte
 	for i := 0; i < nPk; i++ {
 		lens[i] = verifInt(lenN[i], 0, 70000)
-		// every packet aliases the same zero bytes: contents are irrelevant, identity is tracked by the iovec slot
-		p := make([]byte, 1)
-		_ = p
+		backing := make([]byte, 70000) // own buffer per packet (contents irrelevant, identity matters)
 		bufs = append(bufs, backing[:lens[i]])
+		first[i] = &backing[0]
 		toB[i] = verifBool(dstN[i])
 		if toB[i] {
 			addrs = append(addrs, dstB)
@@ -63,6 +62,21 @@ func VerifC26WriteBatch() {
 	errScript := verifBytes("errno", c26Script)
 	calls := 0
 	accepted := 0 // packets in entries the kernel accepted
+	var handed [c26N]int // how often each packet was in an accepted entry
+	note := func(e int) {
+		h := &w.msgs[e].Hdr
+		for q := 0; q < c26Scratch; q++ {
+			if h.Iov == &w.iovs[q] {
+				for k := 0; k < int(h.Iovlen) && q+k < c26Scratch; k++ {
+					for j := 0; j < c26N; j++ {
+						if w.iovs[q+k].Base != nil && w.iovs[q+k].Base == first[j] {
+							handed[j]++
+						}
+					}
+				}
+			}
+		}
+	}
 	okRuns := true
 	progress := true
 	w.sendFn = func(start, n int) (int, error) {
@@ -70,6 +84,7 @@ func VerifC26WriteBatch() {
 			// script exhausted: from here on the kernel accepts everything
 			for e := start; e < start+n; e++ {
 				accepted += int(w.msgs[e].Hdr.Iovlen)
+				note(e)
 			}
 			return n, nil
 		}
@@ -93,6 +108,7 @@ func VerifC26WriteBatch() {
 		}
 		for e := start; e < start+sent; e++ {
 			accepted += int(w.msgs[e].Hdr.Iovlen)
+			note(e)
 		}
 		if sent > 0 {
 			return sent, nil
@@ -112,6 +128,9 @@ func VerifC26WriteBatch() {
 	verifAssert(okRuns, "every entry handed to the kernel is a run within the segment limit, with a segment cmsg exactly when it has several packets")
 	verifAssert(written == accepted, "the reported count equals the datagrams the kernel accepted")
 	verifAssert(written <= nPk, "no datagram is counted (handed over successfully) more than once")
+	for j := 0; j < c26N; j++ {
+		verifAssert(handed[j] <= 1, "every datagram is handed to the kernel successfully at most once")
+	}
 	if progress {
 		verifAssert(err == nil, "kernel faults are not reported as call failures")
 	} else {
